@@ -831,14 +831,18 @@ GET(algorithm, nlopt_algorithm, algorithm)
     nlopt_result NLOPT_STDCALL nlopt_set_local_optimizer(nlopt_opt opt, const nlopt_opt local_opt)
 {
     if (opt) {
+        nlopt_opt new_local_opt;
         nlopt_unset_errmsg(opt);
         if (local_opt && local_opt->n != opt->n)
             return ERR(NLOPT_INVALID_ARGS, opt, "dimension mismatch in local optimizer");
+        /* copy before destroying: local_opt may be opt itself, so that it
+           references the old opt->local_opt */
+        new_local_opt = nlopt_copy(local_opt);
+        if (local_opt && !new_local_opt)
+            return NLOPT_OUT_OF_MEMORY;
         nlopt_destroy(opt->local_opt);
-        opt->local_opt = nlopt_copy(local_opt);
+        opt->local_opt = new_local_opt;
         if (local_opt) {
-            if (!opt->local_opt)
-                return NLOPT_OUT_OF_MEMORY;
             nlopt_set_lower_bounds(opt->local_opt, opt->lb);
             nlopt_set_upper_bounds(opt->local_opt, opt->ub);
             nlopt_remove_inequality_constraints(opt->local_opt);
